@@ -2,9 +2,9 @@ package main
 
 import (
 	"fmt"
-	"strings"
 	"go/token"
 	"go/types"
+	"strings"
 
 	"golang.org/x/tools/go/ssa"
 )
@@ -35,7 +35,7 @@ type Keyer struct {
 	unstable  map[*types.Var]bool // fields stored to inside fn (or possibly by callees): loads are distinct
 	names     map[ssa.Value]string
 	n         int
-	FreshLoad func(*types.Var) bool // fields whose every load must be a distinct value (e.g. concurrently modified)
+	FreshLoad func(*types.Var) bool   // fields whose every load must be a distinct value (e.g. concurrently modified)
 	Subst     map[ssa.Value]ssa.Value // case split: a phi standing for the value of one of its incoming edges
 }
 
